@@ -165,7 +165,7 @@ def check(ctx):
         ctx.violation('C02.R2', XER, xb.node, '%s::Boolean' % XER, 'BOOLEAN element names written %s and tested %s differ (X.693: <true/> <false/>)' % (sorted(written), sorted(tested)), stmt='boolean names')
     # JER REAL special spellings and their inverse
     jr = model.cls(JER, 'Real')
-    enc, dec = jr.methods['encode'], jr.methods['decode']
+    enc, dec = flow.unwrap_delegate(jr.methods['encode']), flow.unwrap_delegate(jr.methods['decode'])
     table = None
     dicts = [n for n in walk_no_nested(dec) if isinstance(n, ast.Dict)]
     for n in walk_no_nested(dec):                       # ... or a class-level / module-level table the decoder indexes
@@ -183,7 +183,7 @@ def check(ctx):
         table = {k.value: unparse_x(v, dec) for k, v in zip(n.keys, n.values) if isinstance(k, ast.Constant)}
     if table is None:
         raise AnalysisError('jer.Real.decode: special value table not found')
-    dparam = flow.param_names(enc)[1]
+    dparam = [p_ for p_ in flow.param_names(enc) if p_ != 'self'][0]
     eps = sem.paths(enc) or []
     seen_sp = set()
     for p in eps:
